@@ -4,8 +4,8 @@
    Version stores: lists of (key, revision, value) strictly ascending in (key, revision) — the engine
    order of the encoded keys by C10 — over the key alphabet; revision 0 = index record.
    Client level: value = Some v (written) | None (deleted); engine level: the marker "tombstone" stands for None. *)
-From KB Require Import Base.Cases Model.Coder Model.ReadSys Model.C03Cases
-  Proofs.Coder Proofs.ReadSys Proofs.ReadSysSnap Proofs.ReadSysThm Proofs.ReadSysSpec Proofs.ReadSysPart Proofs.ReadSysC03 Proofs.ReadSysC13 Proofs.ReadSysC13b Proofs.ReadSysC03b.
+From KB Require Import Base.Cases Model.Coder Model.ReadSys Model.C03Cases Model.C13Cases Model.ReadValid
+  Proofs.Coder Proofs.ReadSys Proofs.ReadSysSnap Proofs.ReadSysThm Proofs.ReadSysSpec Proofs.ReadSysPart Proofs.ReadSysC03 Proofs.ReadSysC13 Proofs.ReadSysC13b Proofs.ReadSysC03b Proofs.ReadValid.
 Local Open Scope N_scope.
 
 (* point read: Get(k, rv) returns the newest version <= rv of k (rv = 0: the newest stored version) unless it is a deletion *)
@@ -145,6 +145,40 @@ Theorem C03_oracle_sound : forall c, c03_valid c -> c03_check c = true -> c03_or
 Proof. exact c03_oracle_sound. Qed.
 Print Assumptions C03_oracle_sound.
 
+(* the engine assumption as a named hypothesis (engine_presents_acknowledged: the dump of the phase — a snapshot scan
+   after the acknowledgements — holds the layout of the acknowledged history): under it every in-scope read the model
+   reproduces meets the snapshot of the history, whatever happened below the adapter in between.  The held-secondary-
+   commit and late-timestamp cases of the driver are ordinary cases of this theorem: an acknowledged, published write
+   belongs to the snapshot. *)
+Theorem C03_acknowledged_writes_read : forall ck compat srt parts ph hv F q, (srt = false -> parts = single_part) ->
+  hist_pos hv -> functional hv -> engine_presents_acknowledged (ph_dump ph) hv F -> floor_rec_ok ck (ph_dump ph) F = true ->
+  F < two64 -> ph_cur ph < two64 -> read_alpha q -> read_parts_ok parts q -> in_scope compat hv (ph_cur ph) F q = true ->
+  read_check ck compat parts ph q = true ->
+  read_meets srt in_range (marker_as_deletion hv) (ph_cur ph) q = true.
+Proof. exact read_meets_of_check. Qed.
+Print Assumptions C03_acknowledged_writes_read.
+
+(* validity is decidable, and it is what every shard evaluates: the shards' check function is c03_check_valid
+   (= c03_check && (c03_validb || c03_exempt)), so every evaluated case is either covered by C03_oracle_sound or
+   carries the signature of finding C03-F2 (a key or bound outside the alphabet: c03_exempt) *)
+Theorem C03_validb_sound : forall c, c03_validb c = true -> c03_valid c.
+Proof. exact c03_validb_spec. Qed.
+Print Assumptions C03_validb_sound.
+
+Theorem C03_check_valid_sound : forall c, c03_check_valid c = true -> c03_exempt c = false -> c03_oracle c <> Some 0.
+Proof. exact c03_check_valid_sound. Qed.
+Print Assumptions C03_check_valid_sound.
+
+(* without marker values in the acknowledged history (c03_nomarkerb, decidable) the verdict is None outright: Some 1
+   can only be the signature of finding C03-F1 *)
+Theorem C03_oracle_sound_none : forall c, c03_valid c -> c03_nomarkerb c = true -> c03_check c = true -> c03_oracle c = None.
+Proof. exact c03_oracle_sound_none. Qed.
+Print Assumptions C03_oracle_sound_none.
+
+Theorem C03_check_valid_none : forall c, c03_check_valid c = true -> c03_exempt c = false -> c03_nomarkerb c = true -> c03_oracle c = None.
+Proof. exact c03_check_valid_none. Qed.
+Print Assumptions C03_check_valid_none.
+
 (* read level, without marker values: on the engine image of any well-formed client history without marker values the
    oracle accepts what the model answers to Get (explicit revision), List and Count *)
 Theorem C03_oracle_sound_partial : forall Vs compat fv cur floor q, wf_store Vs -> no_marker Vs -> read_valid fv cur q ->
@@ -259,6 +293,9 @@ Definition x_case : c03_case :=
                WCreate w_a [1] 105 false] 0 x_dump1 104 (x_reads x_dump1 104);
      mk_phase [WCreate w_b [119] 105 true] 103 x_dump2 105 (x_reads x_dump2 105)].
 
+Example C03_check_valid_inhabited : c03_check_valid x_case = true /\ c03_validb x_case = true /\ c03_exempt x_case = false /\ c03_nomarkerb x_case = true.
+Proof. repeat split; vm_compute; reflexivity. Qed.
+
 Example C03_oracle_sound_inhabited : c03_valid x_case /\ c03_check x_case = true /\ c03_oracle x_case = None.
 Proof.
   split; [|split; vm_compute; reflexivity].
@@ -279,3 +316,11 @@ Proof.
   - apply FN. vm_compute. repeat constructor; cbn; intuition discriminate.
   - apply FN. vm_compute. repeat constructor; cbn; intuition discriminate.
 Qed.
+
+Example C03_engine_assumption_inhabited :
+  engine_presents_acknowledged x_dump1
+    (hist_versions [WCreate w_a [120] 101 true; WCreate w_b [121] 102 true; WUpdate w_a [122] 101 103 true; WDelete w_b 102 104 true]) 0
+  /\ engine_presents_acknowledged x_dump2
+    (hist_versions [WCreate w_a [120] 101 true; WCreate w_b [121] 102 true; WUpdate w_a [122] 101 103 true; WDelete w_b 102 104 true;
+                    WCreate w_b [119] 105 true]) 103.
+Proof. split; vm_compute; reflexivity. Qed.
